@@ -18,6 +18,19 @@ Transcribed from /repo/menpo/model/gmrf.py, branch for branch:
 * `GMRFVectorModel._mahalanobis_distance`: sparse `diag(S·(P·Sᵀ))`, dense `einsum('ij,ij->i', S·P, S)`
                                                              → `mahalSparse`, `mahalDense`
 
+* `_covariance_matrix_inverse` (`n_components` given): the coded `s[:, :n]·diag(1/v[:n])·d[:n, :]` with
+  numpy's SVD as a contract parameter → `svdTrunc`, `covInverse`; the truncated pseudo-inverse from a
+  rational eigen-decomposition that the model verifies itself → `specTrunc`, `checkSpec`,
+  `truncChecked`, `buildTrunc` (Lemmas/C12Trunc.lean proves the two equal under the contract)
+* what the dense scatter leaves on an arbitrary digraph (last writer on off-diagonal blocks) → `denseSpec`
+* `GMRFModel` (object level): `as_matrix`, `from_vector`, `mean()`, list / single instance queries
+                                                             → `asVector`, `asMatrix`, `fromVector`, `buildObj`,
+                                                               `meanObj`, `queryMatrix`
+* `GMRFVectorModel._data_to_matrix` (`n_samples`)            → `dataToMatrix`, `buildFrom`
+
+The statement order / operators of the loops are re-read from the live source on every run and compared
+with `Core/C12Table.lean` (`modelDenseTable`, `modelTripTable`, `modelIndptr…`, `ctorOf`).
+
 In-place slice assignment is value passing: an update returns the new table.
 -/
 
@@ -348,5 +361,154 @@ def buildFixed (m : Mode) (k V : Nat) (X : Mat) (N : Nat) (bias : Bool) (es : Li
   match build m k V X N bias es with
   | some M => .ok M
   | none => .error .singular
+
+/-! ### rank truncation: the `n_components` branch of `_covariance_matrix_inverse` -/
+
+/-- `G[p][q] = Σ_{r<R} w_r · a_{r,p} · a_{r,q}` -/
+def gram (d R : Nat) (w : Nat → Rat) (a : Nat → Nat → Rat) : Mat :=
+  tab d d fun p q => sumTo R fun r => w r * a r p * a r q
+
+/-- the coded formula `s[:, :n].dot(np.diag(1 / v[:n])).dot(d[:n, :])` with
+`(s, v, d) = np.linalg.svd(cov_mat)` a contract parameter (`U`, `s`, `Vh`); Python slicing clips
+`n_components` at the size of the matrix -/
+def svdTrunc (d nc : Nat) (U : Mat) (s : List Rat) (Vh : Mat) : Mat :=
+  tab d d fun i j => sumTo (min nc d) fun l => ent U i l * (1 / s.getD l 0) * ent Vh l j
+
+/-- `⟨w_i, w_j⟩` for rows `i`, `j` of `W` -/
+def rowDot (d : Nat) (W : Mat) (i j : Nat) : Rat := sumTo d fun p => ent W i p * ent W j p
+
+/-- truncated pseudo-inverse from a rational eigen-decomposition: eigenvalues `sig` (descending), the rows
+of `W` pairwise orthogonal eigenvectors (not normalised, so that they can stay rational):
+`Σ_{i < n} w_i w_iᵀ / (σ_i ‖w_i‖²)` -/
+def specTrunc (d nc : Nat) (sig : List Rat) (W : Mat) : Mat :=
+  gram d (min nc d) (fun i => 1 / (sig.getD i 0 * rowDot d W i i)) (ent W)
+
+/-- the matrix the eigen-decomposition denotes: `Σ_{i < d} σ_i w_i w_iᵀ / ‖w_i‖²` -/
+def specCov (d : Nat) (sig : List Rat) (W : Mat) : Mat :=
+  gram d d (fun i => sig.getD i 0 / rowDot d W i i) (ent W)
+
+/-- the spectral projector on the kept eigenvectors: `Σ_{i < n} w_i w_iᵀ / ‖w_i‖²` -/
+def specProj (d nc : Nat) (W : Mat) : Mat :=
+  gram d (min nc d) (fun i => 1 / rowDot d W i i) (ent W)
+
+def allLt (n : Nat) (p : Nat → Bool) : Bool := (List.range n).all p
+
+/-- the eigen-decomposition certificate is verified exactly by the model: orthogonal non-zero rows,
+`C = Σ σ_i w_i w_iᵀ/‖w_i‖²`, eigenvalues non-negative and descending, the last kept one positive and
+strictly above the first dropped one (so the truncated inverse is determined by `C` alone) -/
+def checkSpec (C : Mat) (d nc : Nat) (sig : List Rat) (W : Mat) : Bool :=
+  let r := min nc d
+  let SC := specCov d sig W
+  allLt d (fun i => allLt d fun j => decide (i = j ∨ rowDot d W i j = 0)) &&
+  allLt d (fun i => decide (rowDot d W i i ≠ 0)) &&
+  allLt d (fun p => allLt d fun q => decide (ent C p q = ent SC p q)) &&
+  allLt d (fun i => decide (0 ≤ sig.getD i 0)) &&
+  allLt d (fun i => decide (i + 1 < d → sig.getD (i + 1) 0 ≤ sig.getD i 0)) &&
+  decide (0 < r → 0 < sig.getD (r - 1) 0) &&
+  decide (0 < r → r < d → sig.getD r 0 < sig.getD (r - 1) 0)
+
+/-- the truncated inverse, returned only when the model has verified the certificate -/
+def truncChecked (C : Mat) (d nc : Nat) (sp : List Rat × Mat) : Option Mat :=
+  if checkSpec C d nc sp.1 sp.2 then some (specTrunc d nc sp.1 sp.2) else none
+
+/-- `_covariance_matrix_inverse` (after `np.atleast_2d`): `np.linalg.inv` for `n_components=None`, the
+truncated-SVD formula otherwise (the `except:` fallback is unreachable under numpy's contract) -/
+def covInverse (C : Mat) (d : Nat) (nc : Option Nat) (svd : Mat × List Rat × Mat) : Option Mat :=
+  match nc with
+  | none => invChecked C d
+  | some r => some (svdTrunc d r svd.1 svd.2.1 svd.2.2)
+
+/-- `GMRFVectorModel.__init__` with `n_components = nc` on data whose covariances have rational
+eigen-decompositions (one certificate per edge / per vertex, verified by `truncChecked`) -/
+def buildTrunc (m : Mode) (k V : Nat) (X : Mat) (N : Nat) (bias : Bool) (es : List (Nat × Nat)) (nc : Nat)
+    (specs : List (List Rat × Mat)) : Option Model :=
+  let n := V * k
+  if es.isEmpty then
+    if specs.length ≠ V then none else
+    match mapM? (fun vs : Nat × (List Rat × Mat) =>
+        truncChecked (covMat (vertexData k X N vs.1) N k bias) k nc vs.2) ((List.range V).zip specs) with
+    | none => none
+    | some Bs => some ⟨denseDiag k n Bs, assemble V (diagTrips k 0 Bs), meanVec X N n⟩
+  else
+    if specs.length ≠ es.length then none else
+    match mapM? (fun ees : (Nat × Nat) × (List Rat × Mat) =>
+        truncChecked (covMat (edgeData m k X N ees.1) N (m.dim k) bias) (m.dim k) nc ees.2) (es.zip specs) with
+    | none => none
+    | some Bs => some ⟨dense m k n es Bs, assemble V (allTrips m k es Bs), meanVec X N n⟩
+
+/-! ### what the dense scatter computes on *any* edge list (antiparallel and repeated pairs included)
+
+The diagonal blocks are written with `+=`, so they collect every edge; the off-diagonal blocks are
+written with `=`, so block `(bi, bj)` holds what the *last* edge joining `bi` and `bj` (in either
+direction) wrote there. -/
+
+/-- what an edge `(v1, v2)` writes at block `(v1, v2)` -/
+def off12 (m : Mode) (k : Nat) (B : Mat) (a c : Nat) : Rat :=
+  match m with
+  | .concat => ent (blkOf B 0 k k) a c
+  | .sub => ent (negBlk B k) a c
+
+/-- what an edge `(v1, v2)` writes at block `(v2, v1)` -/
+def off21 (m : Mode) (k : Nat) (B : Mat) (a c : Nat) : Rat :=
+  match m with
+  | .concat => ent (blkOf B k 0 k) a c
+  | .sub => ent (negBlk B k) a c
+
+def offStep (m : Mode) (k bi bj a c : Nat) (acc : Rat) (eB : (Nat × Nat) × Mat) : Rat :=
+  if eB.1.1 = bi ∧ eB.1.2 = bj then off12 m k eB.2 a c
+  else if eB.1.2 = bi ∧ eB.1.1 = bj then off21 m k eB.2 a c
+  else acc
+
+/-- entry `(a, c)` of off-diagonal block `(bi, bj)` after the loop: last writer wins -/
+def lastOff (m : Mode) (k : Nat) (es : List (Nat × Nat)) (Bs : List Mat) (bi bj a c : Nat) : Rat :=
+  (es.zip Bs).foldl (offStep m k bi bj a c) 0
+
+def denseSpec (m : Mode) (k : Nat) (es : List (Nat × Nat)) (Bs : List Mat) (I J : Nat) : Rat :=
+  if I / k = J / k then tripsEntFlat k (allTrips m k es Bs) I J
+  else lastOff m k es Bs (I / k) (J / k) (I % k) (J % k)
+
+/-! ### `GMRFModel`: the object level (samples are `V × k` point sets) -/
+
+/-- `PointCloud.as_vector()`: row-major flattening of a `V × k` array -/
+def asVector (V k : Nat) (p : Mat) : List Rat := (List.range (V * k)).map fun I => ent p (I / k) (I % k)
+
+/-- `as_matrix(samples)`: one flattened sample per row -/
+def asMatrix (V k : Nat) (samples : List Mat) : Mat := samples.map (asVector V k)
+
+/-- `template_instance.from_vector(v)` -/
+def fromVector (V k : Nat) (v : List Rat) : Mat := tab V k fun a b => v.getD (a * k + b) 0
+
+/-- `GMRFModel.__init__`: `as_matrix`, then `GMRFVectorModel.__init__` with `n_samples = data.shape[0]` -/
+def buildObj (m : Mode) (k V : Nat) (samples : List Mat) (bias : Bool) (es : List (Nat × Nat)) : Option Model :=
+  build m k V (asMatrix V k samples) samples.length bias es
+
+/-- `GMRFModel.mean()` -/
+def meanObj (V k : Nat) (M : Model) : Mat := fromVector V k M.mean
+
+/-- argument of `GMRFModel.mahalanobis_distance`: one instance or a list of instances -/
+inductive Query
+  | one (p : Mat)
+  | many (ps : List Mat)
+
+/-- `samples.as_vector()[..., None].T` resp. `as_matrix(samples)` -/
+def queryMatrix (V k : Nat) : Query → Mat
+  | .one p => [asVector V k p]
+  | .many ps => asMatrix V k ps
+
+/-! ### `GMRFVectorModel._data_to_matrix` -/
+
+/-- `_data_to_matrix(data, n_samples)`: `n_samples=None` takes `len(data)`; a list of samples is turned into an
+array and cut to its first `n_samples` rows, an array is taken whole (and `n_samples` is only recorded) -/
+def dataToMatrix (isArray : Bool) (data : Mat) (nSamples : Option Nat) : Mat × Nat :=
+  match nSamples with
+  | none => (data, data.length)
+  | some n => (if isArray then data else data.take n, n)
+
+/-- `GMRFVectorModel.__init__(samples, graph, n_samples=…)`: everything is computed from the rows of the data
+matrix (`np.mean`, `np.cov`), `n_samples` itself only selects them -/
+def buildFrom (m : Mode) (k V : Nat) (isArray : Bool) (data : Mat) (nSamples : Option Nat) (bias : Bool)
+    (es : List (Nat × Nat)) : Option Model :=
+  let X := (dataToMatrix isArray data nSamples).1
+  build m k V X X.length bias es
 
 end MenpoModel.C12
